@@ -200,7 +200,9 @@ func OracleSources(verifDir string) ([][2]string, error) {
 // into the operating system redirected to the harness stubs (the engine does
 // the same redirection by callee name).
 var boundaryFiles = map[string][]string{
-	"root": {"seccomp_linux.go"},
+	"root":                 {"seccomp_linux.go"},
+	"cmd/sandbox":          {"main.go"},
+	"cmd/seccomp-profiler": {"main.go"},
 }
 
 var boundaryRewrites = [][2]string{
@@ -210,6 +212,18 @@ var boundaryRewrites = [][2]string{
 	{"syscall.RawSyscall(", "vstubSyscall("},
 	{"runtime.LockOSThread(", "vstubLockOSThread("},
 	{"runtime.UnlockOSThread(", "vstubUnlockOSThread("},
+	// cmd/sandbox
+	{"flag.StringVar(", "vstubStringVar("},
+	{"flag.BoolVar(", "vstubBoolVar("},
+	{"flag.Parse()", "vstubFlagParse()"},
+	{"flag.Args()", "vstubFlagArgs()"},
+	{"= parsePolicy()", "= vstubParsePolicy()"},
+	{"yaml.NewConfigWithFile(", "vstubNewConfigWithFile("},
+	{"conf.Unpack(", "vstubUnpack(conf, "},
+	{"seccomp.LoadFilter(", "vstubLoadFilter("},
+	{"exec.Command(", "vstubCommand("},
+	{"cmd.Run()", "vstubCmdRun(cmd)"},
+	{"os.Exit(", "vstubExit("},
 }
 
 // RewriteBoundary is the mechanical source rewrite used for native replays.
@@ -217,11 +231,40 @@ func RewriteBoundary(src string) string {
 	for _, r := range boundaryRewrites {
 		src = strings.ReplaceAll(src, r[0], r[1])
 	}
-	// keep imports used
-	if strings.Contains(src, "\"runtime\"") && !strings.Contains(src, "runtime.") {
-		src += "\nvar _ = runtime.GOOS\n"
+	// an import whose last use was rewritten away becomes a blank import
+	lines := strings.Split(src, "\n")
+	inImports := false
+	for i, l := range lines {
+		t := strings.TrimSpace(l)
+		if strings.HasPrefix(t, "import (") {
+			inImports = true
+			continue
+		}
+		if inImports && t == ")" {
+			inImports = false
+			continue
+		}
+		if !inImports || !strings.Contains(t, "\"") {
+			continue
+		}
+		f := strings.Fields(t)
+		path := strings.Trim(f[len(f)-1], "\"")
+		name := path[strings.LastIndex(path, "/")+1:]
+		if len(f) == 2 {
+			name = f[0]
+		}
+		if name == "_" || name == "." {
+			continue
+		}
+		if strings.HasSuffix(path, ".v2") && len(f) == 1 {
+			name = "yaml"
+		}
+		rest := strings.Join(lines[i+1:], "\n")
+		if !strings.Contains(rest, name+".") {
+			lines[i] = "\t_ \"" + path + "\""
+		}
 	}
-	return src
+	return strings.Join(lines, "\n")
 }
 
 const replayTestSrc = `package PKGNAME
